@@ -98,6 +98,54 @@ Theorem C03_lenient_nonvacuous :
   parse_model TokRoundEx.ex_cls ex2_numcanon (fun _ => false) true (LexLinkBase.lines_of len2_text) = PRDoc len2_doc [] [].
 Proof. exact (conj len_layout_ok (conj len2_layout_ok len2_parses)). Qed.
 
+(* ---- LENIENT LAYOUTS CONVERGE, TEXT LEVEL (lexer half Rt/LexLenient*.v + parser half Rt/TokLenient.v) ---------------------
+   render_len lay sg d is a printer, written in Gallina, of the lenient spellings of a core2 document d: layout `lay`
+   (indentation count of every line, blank lines anywhere incl. before the first line, line breaks / indents / comment
+   lines inside list brackets, ===END=== present or not) and extras `sg` (spaces on blank lines, trailing spaces on node,
+   comment and META lines, spaces before and after `::`, spaces after commas, extra spaces before a trailing comment).
+   Any two such spellings of d are READ AS d by the whole reader model (lexer with its pre-passes + parser), with no
+   repair and only advisory warnings; hence every canonicaliser gives identical bytes, and the canonical text `emit sp d`
+   is itself one of the spellings (render_len of the canonical layout with no extras). *)
+From OV Require Import Rt.LexLinkBase Rt.LexLink2Text Rt.LexLenientBase Rt.LexLenient Rt.LexLenientCanon Rt.LexLenientEx.
+Theorem C03_text_lenient_converge :
+  forall cls numcanon holo_ok strict d lay1 sg1 lay2 sg2,
+    core2_doc_l d = true -> lex_safe2_doc d = true ->
+    nums_ok2_l numcanon ex_idnum (dsections d) -> Forall (field_num_ok numcanon) (dmeta d) ->
+    lay_lex lay1 = true -> layout_ok lay1 d = true -> text_clean (render_len lay1 sg1 d) = true ->
+    lay_lex lay2 = true -> layout_ok lay2 d = true -> text_clean (render_len lay2 sg2 d) = true ->
+    exists w1 w2,
+      parse_model cls numcanon holo_ok strict (lines_of (render_len lay1 sg1 d)) = PRDoc d [] w1 /\
+      parse_model cls numcanon holo_ok strict (lines_of (render_len lay2 sg2 d)) = PRDoc d [] w2 /\
+      Forall advisory w1 /\ Forall advisory w2.
+Proof. exact text_lenient_converge. Qed.
+
+Theorem C03_text_lenient_same_canonical :
+  forall cls numcanon holo_ok strict sp d lay1 sg1 lay2 sg2,
+    core2_doc_l d = true -> lex_safe2_doc d = true ->
+    nums_ok2_l numcanon ex_idnum (dsections d) -> Forall (field_num_ok numcanon) (dmeta d) ->
+    lay_lex lay1 = true -> layout_ok lay1 d = true -> text_clean (render_len lay1 sg1 d) = true ->
+    lay_lex lay2 = true -> layout_ok lay2 d = true -> text_clean (render_len lay2 sg2 d) = true ->
+    forall d1 d2 r1 r2 w1 w2,
+      parse_model cls numcanon holo_ok strict (lines_of (render_len lay1 sg1 d)) = PRDoc d1 r1 w1 ->
+      parse_model cls numcanon holo_ok strict (lines_of (render_len lay2 sg2 d)) = PRDoc d2 r2 w2 ->
+      emit sp d1 = emit sp d2.
+Proof. exact text_lenient_same_canonical. Qed.
+
+(* the canonical text is the spelling with the emitter's layout and no extras *)
+Theorem C03_canonical_is_a_lenient_spelling :
+  forall sp d, core2_doc d = true -> lex_safe2_doc d = true ->
+    render_len (canonical_lay needs_multiline d) sig0 d = emit sp d.
+Proof. exact render_len_canonical. Qed.
+
+(* non-vacuity: a document printed plainly and printed with every extra at once (blank lines with spaces, trailing
+   spaces, spaces around ::, after commas) are both read as that document *)
+Theorem C03_text_lenient_nonvacuous :
+  exists w1 w2,
+    parse_model TokRoundEx.ex_cls ex2_numcanon (fun _ => false) true (lines_of (render_len len_lay sig0 len_doc)) = PRDoc len_doc [] w1 /\
+    parse_model TokRoundEx.ex_cls ex2_numcanon (fun _ => false) true (lines_of (render_len len_lay len_sig_all len_doc)) = PRDoc len_doc [] w2 /\
+    Forall advisory w1 /\ Forall advisory w2.
+Proof. exact len_converges_thm. Qed.
+
 (* ---- source-text pins (generated by harness/pinsets.py) ---- *)
 (* every function of these modules is, text for text (comments and docstrings excluded), the one the models of this
    property were written against and validated against: harness/translate/srcdigest_t.py, Src/Pin_*.v *)
